@@ -106,12 +106,29 @@ def _flag_is_identity(chk, src):
                    f"field `{name}` is left out of equality/hash: the final segment ending exactly on a matching scale and the cliff segment "
                    f"with the same end points become one recipe and one stored part, so the operator at the matching scale is computed "
                    f"with the flags of whichever comes first and jumps with respect to its neighbours", where=c.where, instance=name)
-    # the two places where identity is what keeps them apart (anchors of the rule: if they vanish the rule must be re-derived)
+    # what the identity is needed for, evaluated: a target ON a matching scale and a target beyond it share the end points of one
+    # segment (final for the first, cliff for the second); both recipes must survive the de-duplication and get different file names
+    from fractions import Fraction
+
+    from ..pe import PE, PERaise
+
+    pe = PE(src)
     fcr = src.func("eko.runner.recipes._create")
-    chk.need(any(w in ast.unparse(fcr.node) for w in ("set(", "fromkeys(", "unique(")),
-             "eko.runner.recipes._create no longer de-duplicates recipes by identity")
-    fenc = src.func("eko.io.inventory.encode")
-    chk.need("hash(header)" in ast.unparse(fenc.node), "stored parts are no longer named by hash(header)")
+    fname = src.func("eko.io.inventory.header_name")
+    atlas = pe.instantiate("eko.matchings.Atlas", [[10, 20, 30], (Fraction(5), 3)])
+    try:
+        recs = pe.call(fcr.qname, [[(Fraction(20), 4), (Fraction(35), 6)], atlas])
+        shared = [r for r in recs if r.cls.node.name == "Evolution" and pe.getattr(r, "origin") == 10 and pe.getattr(r, "target") == 20]
+        flags = sorted(pe.getattr(r, "cliff") for r in shared)
+        names = {pe.call(fname.qname, [r]) for r in shared}
+        ok = flags == [False, True] and len(names) == 2 and len(recs) == 8
+        found = f"{len(recs)} recipes, segment 10->20 (nf=4) kept with cliff flags {flags}, {len(names)} distinct file name(s)"
+    except PERaise as e:
+        ok, found = False, f"raises {e}"
+    chk.decide(ok, "segment-flags-are-recipe-identity", fcr.qname,
+               f"targets (20, nf=4) on a matching scale and (35, nf=6) beyond it, from (5, nf=3) with matching scales 10, 20, 30: {found}; "
+               f"required 8 recipes (4 + 3 matchings + the shared segment twice: final for the first target, cliff for the second), stored "
+               f"under different names", where=fcr.where, instance="shared end points", how="PE of _create and header_name")
 
 
 def _couplings_nf(chk, src):
